@@ -190,3 +190,271 @@ Proof.
     + split; discriminate.
     + destruct (forallb2 (slot_cond (kws c)) sig (copy_pos sig (npos c))); split; auto; discriminate.
 Qed.
+
+(* ================================================================== star actuals *)
+
+Definition kwish_named (p : nat -> bool) (a : actual_s) : bool :=
+  match a with SKw _ k | STDKey _ k => p k | _ => false end.
+Fixpoint names_s (l : list actual_s) : list nat :=
+  match l with
+  | [] => []
+  | SKw _ k :: r | STDKey _ k :: r => k :: names_s r
+  | _ :: r => names_s r
+  end.
+
+Section KWS.
+Variable p : nat -> bool.
+Hypothesis p_unique : forall a b, p a = true -> p b = true -> a = b.
+
+Lemma kws_filter_null : forall l, null (filter (kwish_named p) l) = negb (existsb p (names_s l)).
+Proof. induction l as [|a l IH]; simpl; auto. destruct a; simpl; auto; destruct (p name); simpl; auto. Qed.
+
+Lemma kws_filter_none : forall l, existsb p (names_s l) = false -> filter (kwish_named p) l = [].
+Proof.
+  induction l as [|a l IH]; simpl; intros H; auto.
+  destruct a; simpl in *; auto; apply orb_false_elim in H; destruct H as [H1 H2]; rewrite H1; auto.
+Qed.
+
+Lemma kws_filter_length : forall l, NoDup (names_s l) ->
+  length (filter (kwish_named p) l) = if existsb p (names_s l) then 1 else 0.
+Proof.
+  induction l as [|a l IH]; simpl; intros ND; auto.
+  destruct a; simpl in *; auto; inversion ND; subst; destruct (p name) eqn:E; simpl; auto;
+    rewrite kws_filter_none; auto;
+    destruct (existsb p (names_s l)) eqn:EX; auto; apply existsb_exists in EX; destruct EX as [x [Hx Px]];
+    rewrite (p_unique _ _ E Px) in H1; tauto.
+Qed.
+
+Lemma kws_filter_first : forall l, first_positional_s (filter (kwish_named p) l) = false.
+Proof. induction l as [|a l IH]; simpl; auto. destruct a; simpl; auto; destruct (p name); simpl; auto. Qed.
+End KWS.
+
+Lemma entry_for_nonstar : forall all f, is_star (fkind f) = false ->
+  forall l, filter (entry_for all f) l = filter (kwish_named (named_by f)) l.
+Proof.
+  intros all f H l. apply filter_ext. intros a. unfold entry_for, kwish_named.
+  destruct a; auto; destruct (fkind f); try discriminate; reflexivity.
+Qed.
+
+Lemma length_one_lt : forall (c : bool), (1 <? S (if c then 1 else 0)) = c.
+Proof. destruct c; reflexivity. Qed.
+
+(* per formal: the star-aware check on [positional head] ++ keyword part, given the pair is not exempt *)
+Definition posish (a : actual_s) : bool := match a with SPos _ | SStarItem _ => true | _ => false end.
+
+Lemma mypy_core_s : forall all kwa, NoDup (names_s kwa) -> forall formals flat,
+  forallb posish flat = true ->
+  forallb2 (fun f m => is_star (fkind f) || negb (exempt_pair m)) formals (attach_s all kwa formals (map_pos_s formals flat)) = true ->
+  null (leftover_s formals flat)
+  && forallb2 (check_formal_s false) formals (attach_s all kwa formals (map_pos_s formals flat))
+  = slots_ok (names_s kwa) formals (length flat).
+Proof.
+  intros all kwa ND. induction formals as [|f rest IH]; intros flat HP HX.
+  - simpl. destruct flat; reflexivity.
+  - pose proof (kws_filter_null (named_by f) kwa) as KN.
+    pose proof (kws_filter_length (named_by f) (named_by_unique f) kwa ND) as KL.
+    pose proof (kws_filter_first (named_by f) kwa) as KF.
+    destruct flat as [|h t].
+    + cbn [leftover_s map_pos_s attach_s forallb2 slots_ok Nat.pred length] in *.
+      apply andb_prop in HX. destruct HX as [_ HX]. specialize (IH [] eq_refl HX).
+      assert (L0 : leftover_s rest [] = []) by (destruct rest; reflexivity). rewrite L0 in IH. cbn [null andb length] in IH.
+      set (X := forallb2 (check_formal_s false) rest _) in *. rewrite <- IH. clearbody X.
+      unfold check_formal_s, is_duplicate_mapping. cbn [app].
+      destruct (fkind f) eqn:K; cbn [is_required is_star is_named andb negb Nat.eqb Nat.ltb null];
+        try (rewrite (entry_for_nonstar all f) by (rewrite K; reflexivity); rewrite ?KN, ?KL, ?KF;
+             destruct (existsb (named_by f) (names_s kwa)); destruct X; reflexivity);
+        destruct X; reflexivity.
+    + simpl in HP. apply andb_prop in HP. destruct HP as [Hh Ht].
+      destruct (fkind f) eqn:K; cbn [leftover_s map_pos_s attach_s forallb2 slots_ok Nat.pred length] in *; rewrite ?K in *;
+        apply andb_prop in HX; destruct HX as [HH HX].
+      * specialize (IH t Ht HX). set (X := forallb2 (check_formal_s false) rest _) in *.
+        set (L := null (leftover_s rest t)) in *. rewrite <- IH. clearbody X L.
+        try rewrite K in HH. cbn [is_star orb app] in HH.
+        unfold check_formal_s, is_duplicate_mapping. cbn [app]. rewrite K, HH. cbn [is_required is_star is_named andb negb app null length Nat.eqb].
+        rewrite (entry_for_nonstar all f) by (rewrite K; reflexivity). rewrite KL, length_one_lt.
+        destruct (existsb (named_by f) (names_s kwa)); destruct X; destruct L; reflexivity.
+      * specialize (IH t Ht HX). set (X := forallb2 (check_formal_s false) rest _) in *.
+        set (L := null (leftover_s rest t)) in *. rewrite <- IH. clearbody X L.
+        try rewrite K in HH. cbn [is_star orb app] in HH.
+        unfold check_formal_s, is_duplicate_mapping. cbn [app]. rewrite K, HH. cbn [is_required is_star is_named andb negb app null length Nat.eqb Nat.ltb].
+        rewrite (entry_for_nonstar all f) by (rewrite K; reflexivity). rewrite KL, length_one_lt.
+        destruct (existsb (named_by f) (names_s kwa)); destruct X; destruct L; reflexivity.
+      * specialize (IH [] eq_refl HX).
+        assert (L0 : leftover_s rest [] = []) by (destruct rest; reflexivity). rewrite L0 in IH. cbn [null andb length] in IH.
+        set (X := forallb2 (check_formal_s false) rest _) in *. rewrite <- IH. clearbody X.
+        unfold check_formal_s. rewrite K. cbn [is_required is_star is_named andb negb null]. reflexivity.
+      * set (X := forallb2 (check_formal_s false) rest _). set (L := null (leftover_s rest t)). clearbody X L.
+        try rewrite K in HH. cbn [is_star orb app] in HH.
+        unfold check_formal_s, is_duplicate_mapping. cbn [app]. rewrite K, HH. cbn [is_required is_star is_named andb negb app null length Nat.eqb].
+        rewrite (entry_for_nonstar all f) by (rewrite K; reflexivity). rewrite KL, length_one_lt.
+        destruct h; try discriminate Hh; cbn [first_positional_s]; destruct (existsb (named_by f) (names_s kwa)); destruct X; destruct L; reflexivity.
+      * reflexivity.
+      * set (X := forallb2 (check_formal_s false) rest _). set (L := null (leftover_s rest t)). clearbody X L.
+        try rewrite K in HH. cbn [is_star orb app] in HH.
+        unfold check_formal_s, is_duplicate_mapping. cbn [app]. rewrite K, HH. cbn [is_required is_star is_named andb negb app null length Nat.eqb].
+        rewrite (entry_for_nonstar all f) by (rewrite K; reflexivity). rewrite KL, length_one_lt.
+        destruct h; try discriminate Hh; cbn [first_positional_s]; destruct (existsb (named_by f) (names_s kwa)); destruct X; destruct L; reflexivity.
+Qed.
+
+Lemma names_s_app : forall l1 l2, names_s (l1 ++ l2) = names_s l1 ++ names_s l2.
+Proof. induction l1 as [|a l1 IH]; simpl; intros; auto. destruct a; simpl; rewrite ?IH; auto. Qed.
+
+Lemma names_s_tdkeys : forall ai keys, names_s (map (STDKey ai) keys) = keys.
+Proof. induction keys; simpl; auto. rewrite IHkeys. auto. Qed.
+
+Lemma names_kw_entries : forall ks ai, names_s (kw_entries ai ks) = kws_of ks.
+Proof.
+  induction ks as [|k ks IH]; intros ai; simpl; auto. destruct k; simpl.
+  - rewrite IH. auto.
+  - rewrite names_s_app, names_s_tdkeys, IH. auto.
+Qed.
+
+Lemma forallb_repeat_posish : forall i n, forallb posish (repeat (SStarItem i) n) = true.
+Proof. induction n; simpl; auto. Qed.
+
+Lemma flatten_posish : forall ps ai, forallb posish (flatten ai ps) = true.
+Proof.
+  induction ps as [|p ps IH]; intros ai; simpl; auto. destruct p; simpl; auto.
+  rewrite forallb_app, forallb_repeat_posish, IH. auto.
+Qed.
+
+Lemma flatten_length : forall ps ai, length (flatten ai ps) = npos_of ps.
+Proof.
+  induction ps as [|p ps IH]; intros ai; simpl; auto. destruct p; simpl.
+  - rewrite IH. auto.
+  - rewrite app_length, repeat_length, IH. auto.
+Qed.
+
+Lemma has_dup_kw_nodup : forall l, has_dup_kw l = false -> NoDup l.
+Proof.
+  induction l as [|x l IH]; simpl; intros H; [constructor|].
+  apply orb_false_elim in H. destruct H as [H1 H2]. constructor; auto.
+  intros C. assert (existsb (Nat.eqb x) l = true) by (apply existsb_exists; exists x; split; auto; apply Nat.eqb_refl).
+  congruence.
+Qed.
+
+(* ---- extra positional values *)
+Lemma leftover_star_nil : forall fs flat, shape fs = true -> has_kind is_star1 fs = true -> leftover_s fs flat = [].
+Proof.
+  unfold has_kind. induction fs as [|f rest IH]; intros flat SH HS; [discriminate|].
+  simpl in *. destruct flat as [|h t]; auto.
+  destruct (fkind f) eqn:K; simpl in *; auto.
+  - pose proof (tail_nostar _ SH) as T. unfold has_kind in T. congruence.
+  - destruct rest; discriminate.
+  - pose proof (tail_nostar _ SH) as T. unfold has_kind in T. congruence.
+Qed.
+
+Lemma leftover_posish : forall fs flat, forallb posish flat = true -> forallb posish (leftover_s fs flat) = true.
+Proof.
+  induction fs as [|f rest IH]; intros flat H; simpl; auto.
+  destruct flat as [|h t]; auto. simpl in H. apply andb_prop in H. destruct H as [Hh Ht].
+  destruct (fkind f); auto; simpl; rewrite ?Hh, ?Ht; auto.
+Qed.
+
+Lemma extra_positional_spec : forall fs flat, shape fs = true -> forallb posish flat = true ->
+  extra_positional fs flat = negb (null (leftover_s fs flat)).
+Proof.
+  intros fs flat SH HP. unfold extra_positional.
+  destruct (has_kind is_star1 fs) eqn:HS.
+  - rewrite leftover_star_nil by auto. reflexivity.
+  - pose proof (leftover_posish fs flat HP) as LP. destruct (leftover_s fs flat) as [|a lo]; auto.
+    simpl in LP. apply andb_prop in LP. destruct LP as [Ha _]. simpl. destruct a; try discriminate; reflexivity.
+Qed.
+
+(* ---- unexpected keyword / extra TypedDict key *)
+Lemma name_in_matched : forall fs k,
+  existsb (fun f => named_by f k && is_star1 (fkind f)) fs = false -> name_in fs k = name_matched fs k.
+Proof.
+  unfold name_in, name_matched. induction fs as [|f rest IH]; intros k H; auto. simpl in *.
+  apply orb_false_elim in H. destruct H as [H1 H2]. rewrite IH by auto.
+  destruct (named_by f k); simpl in *; auto. rewrite H1. reflexivity.
+Qed.
+
+Lemma unexpected_s_star2 : forall fs kwa, has_kind is_star2 fs = true -> unexpected_s fs kwa = false.
+Proof.
+  intros fs kwa H. unfold unexpected_s. induction kwa as [|a l IH]; simpl; auto.
+  rewrite IH, H. destruct a; simpl; rewrite ?orb_true_r; auto.
+Qed.
+
+Lemma unexpected_plain_star2 : forall fs c, has_kind is_star2 fs = true -> unexpected_keyword fs c = false.
+Proof.
+  intros fs c H. unfold unexpected_keyword. induction (kws c) as [|a l IH]; simpl; auto.
+  rewrite IH, H, orb_true_r. auto.
+Qed.
+
+Lemma unexpected_s_agree : forall fs, has_kind is_star2 fs = false -> forall ks ai,
+  forallb (fun k => negb (existsb (fun f => named_by f k && is_star1 (fkind f)) fs)) (tdkeys_of ks) = true ->
+  unexpected_s fs (kw_entries ai ks)
+  = existsb (fun k => negb (name_matched fs k || has_kind is_star2 fs)) (kws_of ks).
+Proof.
+  intros fs H2. unfold unexpected_s. induction ks as [|k ks IH]; intros ai HL; auto.
+  destruct k as [n|keys]; simpl in *.
+  - rewrite IH by auto. reflexivity.
+  - rewrite forallb_app in HL. apply andb_prop in HL. destruct HL as [HK HR].
+    rewrite !existsb_app, IH by auto. f_equal.
+    clear IH HR. induction keys as [|x keys IHk]; simpl in *; auto.
+    apply andb_prop in HK. destruct HK as [Hx HK]. rewrite IHk by auto.
+    rewrite name_in_matched; auto. destruct (existsb _ fs); auto; discriminate.
+Qed.
+
+(* ---- the verdicts as slots_ok *)
+Lemma mypy_accepts_slots : forall sig c, NoDup (kws c) ->
+  mypy_accepts sig c = negb (unexpected_keyword sig c) && slots_ok (kws c) sig (npos c).
+Proof.
+  intros sig c ND. unfold mypy_accepts, map_actuals_to_formals. destruct (unexpected_keyword sig c).
+  - rewrite andb_false_r. reflexivity.
+  - cbn [negb]. rewrite andb_true_r. apply mypy_core. auto.
+Qed.
+
+Lemma mypy_accepts_s_expand : forall sig c, shape sig = true -> plain_like sig c = true ->
+  mypy_accepts_s sig c = mypy_accepts sig (expand c).
+Proof.
+  intros sig c SH PL. unfold plain_like in PL. apply andb_prop in PL. destruct PL as [PL L3].
+  apply andb_prop in PL. destruct PL as [L1 L2].
+  unfold no_L3 in L3. assert (D : has_dup_kw (kws_of (kitems c)) = false) by (destruct (has_dup_kw _); auto; discriminate).
+  pose proof (has_dup_kw_nodup _ D) as ND.
+  rewrite mypy_accepts_slots by exact ND.
+  unfold mypy_accepts_s, map_actuals_to_formals_s, no_L2, map_actuals_to_formals_s in *.
+  assert (U : unexpected_s sig (kw_entries (length (pitems c)) (kitems c)) = unexpected_keyword sig (expand c)).
+  { unfold no_L1 in L1. destruct (has_kind is_star2 sig) eqn:H2.
+    - rewrite unexpected_s_star2, unexpected_plain_star2; auto.
+    - simpl in L1. rewrite unexpected_s_agree; auto. }
+  rewrite U. destruct (unexpected_keyword sig (expand c)).
+  - rewrite andb_false_r. reflexivity.
+  - cbn [negb]. rewrite andb_true_r.
+    rewrite extra_positional_spec by (auto using flatten_posish). rewrite negb_involutive.
+    rewrite mypy_core_s.
+    + rewrite names_kw_entries, flatten_length. reflexivity.
+    + rewrite names_kw_entries. exact ND.
+    + apply flatten_posish.
+    + exact L2.
+Qed.
+
+Theorem arity_agrees_star : forall sig c, wf_sig sig -> plain_like sig c = true ->
+  (mypy_accepts_s sig c = true <-> cpython_bind_s sig c = BindOk).
+Proof.
+  intros sig c WF PL. rewrite (mypy_accepts_s_expand sig c (proj1 WF) PL).
+  unfold cpython_bind_s. unfold plain_like in PL. apply andb_prop in PL. destruct PL as [_ L3].
+  unfold no_L3 in L3. destruct (has_dup_kw (kws_of (kitems c))) eqn:D; [discriminate|].
+  apply arity_agrees; auto. unfold determinate. simpl. apply has_dup_kw_nodup. exact D.
+Qed.
+
+(* the three leniency classes are real: mypy's rule accepts, CPython's binding raises *)
+Theorem arity_star_refuted_L1 : exists sig c, wf_sig sig /\ no_L2 sig c = true /\ no_L3 c = true /\
+  mypy_accepts_s sig c = true /\ cpython_bind_s sig c = TypeError.
+Proof.
+  exists [mkF ARG_STAR (Some 6)], (mkCallS [] [KTD [6]]).
+  repeat split; try (vm_compute; reflexivity). simpl. repeat constructor; simpl; tauto.
+Qed.
+Theorem arity_star_refuted_L2 : exists sig c, wf_sig sig /\ no_L1 sig c = true /\ no_L3 c = true /\
+  mypy_accepts_s sig c = true /\ cpython_bind_s sig c = TypeError.
+Proof.
+  exists [mkF ARG_POS (Some 1)], (mkCallS [PStar 1] [KTD [1]]).
+  repeat split; try (vm_compute; reflexivity). simpl. repeat constructor; simpl; tauto.
+Qed.
+Theorem arity_star_refuted_L3 : exists sig c, wf_sig sig /\ no_L1 sig c = true /\ no_L2 sig c = true /\
+  mypy_accepts_s sig c = true /\ cpython_bind_s sig c = TypeError.
+Proof.
+  exists [mkF ARG_STAR2 (Some 7)], (mkCallS [] [KName 9; KTD [9]]).
+  repeat split; try (vm_compute; reflexivity). simpl. repeat constructor; simpl; tauto.
+Qed.
